@@ -34,7 +34,9 @@ THEOREMS = [
     "CrCube.C20.smoothed_column_proportions",
     "CrCube.C20.smoothed_nan_subtotals",
     "CrCube.C20.smoothed_means_strand",
+    "CrCube.C20.smoothed_percentages",
     "CrCube.C20.smoothed_scale_mean",
+    "CrCube.C20.smoothed_scale_mean_spec",
     "CrCube.C20.smoothed_scale_mean_subcols_partial",
     "CrCube.C20.smoothed_scale_mean_subcols_counterexample",
 ]
@@ -117,7 +119,7 @@ def gen_api(rng):
     ncols = rng.randint(1, 7)
     vars_ = []
     if shape == "3d":
-        vars_.append(gen.gen_var(rng, "cat", "t", n=rng.randint(1, 3), allow_missing=False))  # F4 (C16) is not ours
+        vars_.append(gen.gen_var(rng, "cat", "t", n=rng.randint(1, 3)))
     if shape == "means1d":
         vars_.append(gen.gen_var(rng, rng.choice(["cat_date", "cat_date", "cat_date", "cat"]), "c", n=ncols))
     else:
@@ -145,6 +147,10 @@ def gen_api(rng):
         case["row_subtotals"] = _subtotals(rng, vars_[-2], allow_diff=row_kind != "cat_date")
     if shape in ("2d",) and rng.random() < 0.15:
         case["col_subtotals"] = _subtotals(rng, vars_[-1], allow_diff=False)
+    if shape in ("2d", "3d", "means2d") and rng.random() < 0.2:
+        ids = [c["id"] for c in vars_[-1].cats if not c["missing"]]
+        rng.shuffle(ids)
+        case["col_order"] = ids
     if shape in ("means2d", "means1d"):
         size = 1
         for s in gen.raw_shape(vars_):
@@ -161,11 +167,11 @@ def generate(ctx):
             for cd in (True, False):
                 cases.append(gen_direct(rng, n, w, cd))
     ctx.count("exhaustive_done")
-    for _ in range(ctx.n(0, 400)):
+    for _ in range(ctx.n(0, 2000)):
         n = rng.randint(9, 40)
         w = rng.choice(["absent", None, rng.randint(-2, n + 3), rng.randint(2, n), n, n + 1])
         cases.append(gen_direct(rng, n, w, rng.random() < 0.85, big=True))
-    for _ in range(ctx.n(160, 2500)):
+    for _ in range(ctx.n(500, 15000)):
         cases.append(gen_api(rng))
     return cases
 
@@ -435,6 +441,8 @@ def _transforms(case, vars_):
         tr[dimkey] = {"smoother": case["smoother"]}
     if case["col_subtotals"]:
         tr.setdefault("columns_dimension", {})["insertions"] = case["col_subtotals"]
+    if case.get("col_order"):
+        tr.setdefault("columns_dimension", {})["order"] = {"type": "explicit", "element_ids": case["col_order"]}
     if case["row_subtotals"]:
         tr.setdefault("rows_dimension", {})["insertions"] = case["row_subtotals"]
     return tr
@@ -515,16 +523,26 @@ def eval_api(case, louts, ctx):
         row_order = common.call_impl(lambda: sl.row_order())
         col_order = common.call_impl(lambda: sl.column_order())
         nsubc = len(case["col_subtotals"])
-        if nsubc == 0 and col_order != list(range(ncols)):
+        if not isinstance(col_order, list) or sorted(c for c in col_order if c >= 0) != list(range(ncols)):
             raise common.HarnessFault("unexpected column order %r" % (col_order,))
+        # display position of each PERIOD (payload order): all expectations below are in payload order
+        col_sel = [col_order.index(t) for t in range(ncols)]
+        if col_sel != list(range(ncols)):
+            ctx.count("api:columns-reordered")
+
+        def pay(m):
+            """display matrix -> body columns in payload (period) order"""
+            if isinstance(m, list) and (not m or isinstance(m[0], list)):
+                return [[r[c] for c in col_sel] for r in m]
+            return m
         spec = out["spec"]
 
         def rel2d(own):
             return [expected_series(r, cd, gw)[0] for r in own]
 
         if shape == "means2d":
-            impl = common.call_impl(lambda: sl.smoothed_means)
-            own = common.call_impl(lambda: sl.means)
+            impl = pay(common.call_impl(lambda: sl.smoothed_means))
+            own = pay(common.call_impl(lambda: sl.means))
             want = _display(common.model_to_float(spec["body"]), [], row_order)
             _cmp(findings, "spec", "slice.smoothed_means" + tag, impl, want, "w=%r" % (gw,))
             _cmp(findings, "spec", "slice.smoothed_means.relation", impl, rel2d(own), "w=%r vs own means" % (gw,))
@@ -537,12 +555,11 @@ def eval_api(case, louts, ctx):
 
         # ---- column proportions / percentages
         impl_p = common.call_impl(lambda: sl.smoothed_column_proportions)
-        impl_pc = common.call_impl(lambda: sl.smoothed_column_percentages)
-        own_p = common.call_impl(lambda: sl.column_proportions)
+        impl_pc = pay(common.call_impl(lambda: sl.smoothed_column_percentages))
+        own_p = pay(common.call_impl(lambda: sl.column_proportions))
         if nsubc:
             # observation stream: inserted columns on the smoothed dimension (outside the quantifier)
             ctx.count("observed:column-subtotals")
-            body_cols = [i for i, c in enumerate(col_order) if c >= 0]
             impl_ssm = common.call_impl(lambda: sl.smoothed_columns_scale_mean)
             if isinstance(impl_ssm, list) and isinstance(impl_p, list):
                 ins_cols = [i for i, c in enumerate(col_order) if c < 0]
@@ -552,13 +569,8 @@ def eval_api(case, louts, ctx):
                 ok, _ = common.deep_close([impl_ssm[c] for c in ins_cols], want_ins)
                 if not ok:
                     ctx.count("observed:smoothed_scale_mean.column-subtotals differs from scale mean of smoothed proportions")
-            # the body columns must still obey the statement
-            impl_p = [[r[c] for c in body_cols] for r in impl_p] if isinstance(impl_p, list) else impl_p
-            own_p = [[r[c] for c in body_cols] for r in own_p] if isinstance(own_p, list) else own_p
-            impl_pc = [[r[c] for c in body_cols] for r in impl_pc] if isinstance(impl_pc, list) else impl_pc
-            col_sel = body_cols
-        else:
-            col_sel = None
+        # the body columns must obey the statement (inserted columns are dropped by `pay`)
+        impl_p = pay(impl_p)
         scp = spec["colprops"]
         want_p = _display(common.model_to_float(scp["base"]), common.model_to_float(scp["sub_rows"]), row_order)
         _cmp(findings, "spec", "slice.smoothed_column_proportions" + tag, impl_p, want_p, "w=%r part=%d" % (gw, k))
@@ -571,11 +583,8 @@ def eval_api(case, louts, ctx):
              _display(common.model_to_float(mcp["base"]), common.model_to_float(mcp["sub_rows"]), row_order), "w=%r" % (gw,))
 
         # ---- column index (body smoothed, subtotal rows NaN)
-        impl_i = common.call_impl(lambda: sl.smoothed_column_index)
-        own_i = common.call_impl(lambda: sl.column_index)
-        if col_sel is not None and isinstance(impl_i, list):
-            impl_i = [[r[c] for c in col_sel] for r in impl_i]
-            own_i = [[r[c] for c in col_sel] for r in own_i]
+        impl_i = pay(common.call_impl(lambda: sl.smoothed_column_index))
+        own_i = pay(common.call_impl(lambda: sl.column_index))
         nanrows = [[NAN] * ncols for _ in case["row_subtotals"]]
         want_i = _display(common.model_to_float(spec["body"]), nanrows, row_order)
         _cmp(findings, "spec", "slice.smoothed_column_index" + tag, impl_i, want_i, "w=%r part=%d" % (gw, k))
@@ -593,7 +602,7 @@ def eval_api(case, louts, ctx):
                 findings.append({"kind": "spec", "locus": "slice.smoothed_columns_scale_mean.undefined",
                                  "detail": "no numeric values on rows, got %r" % (impl_s,)})
         else:
-            if col_sel is not None and isinstance(impl_s, list):
+            if isinstance(impl_s, list):
                 impl_s = [impl_s[c] for c in col_sel]
             want_s = common.model_to_float(spec["scale_mean"])
             _cmp(findings, "spec", "slice.smoothed_columns_scale_mean" + tag, impl_s, want_s, "w=%r part=%d" % (gw, k))
@@ -650,7 +659,8 @@ def describe(case):
                 "n_series": len(case["series"]), "first": case["series"][:2]}
     return {"t": "api", "shape": case["shape"], "kinds": [v["kind"] for v in case["vars"]],
             "smoother": case["smoother"], "n_respondents": len(case["survey"]),
-            "row_subtotals": case["row_subtotals"], "col_subtotals": case["col_subtotals"]}
+            "row_subtotals": case["row_subtotals"], "col_subtotals": case["col_subtotals"],
+            "col_order": case.get("col_order")}
 
 
 def shrink_candidates(case):
@@ -671,3 +681,5 @@ def shrink_candidates(case):
         yield dict(case, row_subtotals=case["row_subtotals"][:i] + case["row_subtotals"][i + 1:])
     if case["col_subtotals"]:
         yield dict(case, col_subtotals=[])
+    if case.get("col_order"):
+        yield dict(case, col_order=None)
